@@ -6,4 +6,4 @@ Set Extraction KeepSingleton.
 Extraction "model_loc.ml" errno
   Z.add Z.sub Z.mul Z.div Z.modulo Z.abs Z.opp Z.leb Z.ltb Z.eqb Z.of_nat Z.to_nat Z.of_N Z.to_N
   shape_recognised exits exit_ok exit_consistent exits_all_ok model_after_switch
-  render_with double_text ser_double g17_wf.
+  render_with double_text ser_double ser_double_fmt format_drops_decimals g17_wf.
